@@ -55,4 +55,6 @@ var items = []modItem{
 	{"Packet", Item{Dir: "net/packet", Kind: "cond", Recv: "String", Func: "ReadFrom", Err: "string length less than zero", Name: "String_ReadFrom_negLen"}},
 	{"Packet", Item{Dir: "net/packet", Kind: "cond", Recv: "ByteArray", Func: "ReadFrom", Err: "byte array length less than zero", Name: "ByteArray_ReadFrom_negLen"}},
 	{"Packet", Item{Dir: "net/packet", Kind: "cond", Recv: "BitSet", Func: "ReadFrom", Err: "bit set length less than zero", Name: "BitSet_ReadFrom_negLen"}},
+	// ---- net/CFB8 (C10) ----
+	{"CFB8", Item{Dir: "net/CFB8", Kind: "expr", Recv: "CFB8", Func: "xorKeyStream", Local: "tempPos", Name: "CFB8_tempPos"}},
 }
